@@ -303,14 +303,24 @@ func execC19RT(t *testing.T, c C19RT) (v Verdict) {
 		}()
 		for _, x := range want {
 			if err := out.Write(ctx, x); err != nil {
+				if ctx.Err() != nil {
+					inconclusive(t, "http round trip exceeded %v", netBudget)
+				}
 				v.failf("http write of a well-formed envelope failed: %v", err)
 				break
 			}
 		}
+		// ServeHTTP answers only after the reader has taken the envelope, so once every Write has returned
+		// without error the reader has seen everything; it only needs to finish its bookkeeping.
 		select {
 		case <-done:
-		case <-ctx.Done():
-			inconclusive(t, "http round trip exceeded %v", netBudget)
+		case <-time.After(10 * time.Second):
+			mu.Lock()
+			n := len(got)
+			mu.Unlock()
+			if v.Fail == "" {
+				v.failf("http: %d envelopes were written without error but only %d were delivered to the reader", len(want), n)
+			}
 		}
 		mu.Lock()
 		defer mu.Unlock()
